@@ -1,6 +1,53 @@
-(** * C10 — placeholder while the correspondence is being built *)
-From Coq Require Import List.
-From ApiFu Require Import Base.Sexp Intro.IntrospectModel.
-Theorem C10_placeholder : query_depth = 8.
-Proof. exact eq_refl. Qed.
-Print Assumptions C10_placeholder.
+(** * C10 — Introspection describes the visible schema completely, exactly and re-buildably.
+    This file contains only statements closed by [exact] and their [Print Assumptions]. *)
+From Coq Require Import List NArith ZArith Bool.
+From ApiFu Require Import Base.Sexp Intro.Utf8 Intro.IntrospectModel Intro.MarshalValue Intro.LiteralSpec
+     Intro.IntrospectSpec Intro.GraphProofs Intro.IntrospectProofs Intro.MarshalProofs.
+Import ListNotations.
+
+(** ** which types are listed *)
+
+(** the traversal of schema.New registers exactly the named types that belong to the definition
+    (reachable from the directive arguments, the root operation types and AdditionalTypes), each
+    once, and never runs out of the model's fuel *)
+Theorem C10_registry_exact : forall S,
+  exists reg, registry S = Some reg /\ NoDup reg /\ (forall n, In n reg <-> belongs S n)
+              /\ (forall n, In n reg -> defined S n = true).
+Proof. exact registry_spec. Qed.
+
+(** the Spec's own computation of that set is right *)
+Theorem C10_members_exact : forall S,
+  NoDup (members S) /\ (forall n, In n (members S) <-> belongs S n) /\ (forall n, In n (members S) -> defined S n = true).
+Proof. exact members_spec. Qed.
+
+(** ** stage 1: the result of introspection.Query is the description *)
+
+(** For every definition [S] and feature set [F], and however a default value is presented
+    ([pr]): the response is not an error and, after sorting what Go delivers in map order, it IS
+    [describe pr S F] — every visible type, field, argument, input field, enum value, interface
+    and union membership, wrapper chain, description, deprecation flag and reason, directive with
+    locations and arguments, exactly as configured.  Hypotheses: wrapper chains no deeper than the
+    [query_depth] = 8 levels the query asks for (a limit introspection.Query documents itself);
+    gating coherent across "implements" (otherwise C13, DESIGN section 6 rows 17/30); no object
+    declares an interface twice; directive locations are among the eighteen of __DirectiveLocation. *)
+Theorem C10_introspect_describes : forall (D : Type) (pr : sty -> option gval -> D) (S : schema) (F : features),
+  depth_ok S = true -> gating_coherent S F = true -> interfaces_declared_once S = true -> locations_known S = true ->
+  exists r, introspect pr S F = IntroOk r /\ normalise r = describe pr S F.
+Proof. exact introspect_describes. Qed.
+
+(** ** stage 1: printed defaults *)
+
+(** marshalValue prints a conforming default of a scalar, enum or list type (nulls included) as a
+    GraphQL literal whose input coercion at that type gives the configured value back.  Strings:
+    every code point up to U+FFFF other than surrogates, with all of encoding/json's escaping.
+    Floats: integral values (float formatting is not modelled).  Input object values: see
+    [default_roundtrip_partial] below. *)
+Theorem C10_default_roundtrip_partial : forall (S : schema), enums_ok S -> forall v t,
+  default_conforms S v t = true -> printable v ->
+  exists txt, marshal S v t = MOk txt /\ literal_denotes S t txt v = true.
+Proof. exact default_roundtrip_values. Qed.
+
+Print Assumptions C10_registry_exact.
+Print Assumptions C10_members_exact.
+Print Assumptions C10_introspect_describes.
+Print Assumptions C10_default_roundtrip_partial.
